@@ -70,6 +70,10 @@ CLAIMED = {
          "Props/C12.v: C12_ordered_pairing, C12_unordered_needs_keys, C12_fs_confluence, C12_painting_order_free. 13 tool scenarios (reader selections / iteration, taste, colander, combine x3 modes, chef, mandoline 2D / 3D, pestle, whip, chk2plt) are run under the submission order and 27 other task orders (all 24 orders of every pool call with <= 4 tasks, reverse, random), and in serial mode where it exists; returned values and the sha256 of every output file must equal the baseline; every task's open() calls are audited and the independence hypothesis of the confluence theorem is checked on every pool call; thorough tier adds real process pools with 1, 2, 16 workers.",
          "schedules are explored at task granularity (justified by the audited disjointness of task file sets); the OS scheduler and multiprocessing's ordering guarantee for map/imap are trusted; worker count enters only through the real-pool runs of the thorough tier.",
          "DESIGN.md section 3 C12"),
+ 'C07': ("Coq proof (slice_box case analysis: last centre at-or-below / first at-or-above; each side of the bracket = what the finest painting level painted; patches of a level; exact affine / constant / endpoint identities of the interpolation over Q) + bit-for-bit correspondence of returned arrays with an independent array-based sample oracle",
+         "Props/C07.v: C07_slice_box_cases, C07_side_finest, C07_left_patches, C07_right_patches, C07_footprint, C07_affine_exact, C07_constant_normal, C07_on_sample. Mandoline.slice(fformat='return') is run for all three normals at lattice positions (cell centres/faces of every level, eighths around box faces, domain faces and neighbourhood, random, default, outside), field lists incl. grid_level/all, limits, serial and controlled pool, on plotfiles with random / affine-along-normal / constant-along-normal payloads; returned arrays must equal bit for bit the numpy interpolation of the samples selected by an independent box-free oracle; the model's two canvases must equal those samples.",
+         "positions restricted to the dx/8 lattice (float comparisons exact there); IEEE rounding of the interpolation evaluated by numpy, its algebra proved over Q; totality (every pixel defined) is checked by the correspondence (oracle has a sample at every pixel) but not proved; three defects repaired by fix: commits (half-cell margin, default position, grid_level at domain faces).",
+         "DESIGN.md section 3 C07"),
 }
 PENDING_REASON = "check not built yet in this round (model and theorems planned in DESIGN.md section 3); not claimed until its check runs"
 
